@@ -1,6 +1,8 @@
 // Stand-alone reproduction for the C14 findings
 //   C14/exchange-fails/request-data-sent-before-server-settings-exceeds-advertised-smaller-window
 //   C14/exchange-fails/request-header-block-sent-before-server-settings-vs-smaller-server-header-table
+// (a failure is filed under these only if the case is in the situation AND the server's
+// RST_STREAM(FLOW_CONTROL_ERROR) resp. GOAWAY(COMPRESSION_ERROR) is on the wire)
 //
 // Overlay into /repo/http2 (package http2), e.g.
 //   cd /repo && go test -overlay <overlay mapping http2/zz_c14_finding_test.go to this file> \
